@@ -9,6 +9,20 @@ type returnObject struct {
 	Value []interface{}
 }
 
+// returned is the value handed to the return statement that ended a block;
+// every enclosing block wraps it once more.
+func (r returnObject) returned() interface{} {
+	for len(r.Value) > 0 {
+		last := r.Value[len(r.Value)-1]
+		inner, ok := last.(returnObject)
+		if !ok {
+			return last
+		}
+		r = inner
+	}
+	return nil
+}
+
 type continueObject struct {
 	exitBlockStatment
 	Value []interface{}
